@@ -50,6 +50,8 @@ pub struct EpCfg {
     pub v6: bool,
     /// other sockets sharing the SocketSet: 0 none, 1 a closed TCP socket before, 2 an idle bound UDP socket after, 3 both plus a spare listener
     pub spare: u8,
+    /// DeviceCapabilities::max_burst_size of the endpoint's device (the interface clamps the advertised window to it)
+    pub burst: Option<usize>,
 }
 
 pub struct Ep {
@@ -85,6 +87,7 @@ pub fn state_name(s: tcp::State) -> &'static str {
 impl Ep {
     pub fn new(idx: usize, cfg: EpCfg, now: Instant) -> Ep {
         let mut dev = QDev::new(Medium::Ip, cfg.mtu);
+        dev.burst = cfg.burst;
         let mut c = Config::new(HardwareAddress::Ip);
         c.random_seed = cfg.seed;
         let mut iface = Interface::new(c, &mut dev, now);
@@ -251,6 +254,8 @@ fn pick_cfg(rng: &mut Rng, seed: u64, small: bool) -> EpCfg {
         seed,
         v6: rng.chance(40),
         spare: *rng.pick(&[0u8, 0, 1, 2, 3]),
+        // (taken from the seed, not from the generator: the other choices of a run stay what they were)
+        burst: if (seed / 7) % 4 == 0 { Some(1 + (seed % 3) as usize) } else { None },
     }
 }
 
@@ -413,8 +418,8 @@ pub fn pair(args: &Args) {
         total[0] = total[0].min(400 * (ca.tx.min(cb.rx) as i64));
         total[1] = total[1].min(400 * (cb.tx.min(ca.rx) as i64));
         t.ev(json!({"ev":"reset","run":run,"world":"tcp_pair","seed":seed0,"pollat":pollat_mode,"args":{"small":small,"probe":probe,"zwr":force_zwr,"ackloss":force_ackloss,"edge":edge_mode,"maxbytes":maxbytes},"zw":zwr,"al":ackloss,
-            "v6":ca.v6,"cfg":[{"rx":ca.rx,"tx":ca.tx,"mtu":ca.mtu,"cc":ca.cc,"ad":ca.ack_delay.map(|x| x as i64).unwrap_or(-1),"nagle":ca.nagle,"ts":ca.ts,"isn":wa,"ka":ca.keep_alive.map(|x| x as i64).unwrap_or(-1),"tmo":ca.timeout.map(|x| x as i64).unwrap_or(-1),"spare":ca.spare},
-                   {"rx":cb.rx,"tx":cb.tx,"mtu":cb.mtu,"cc":cb.cc,"ad":cb.ack_delay.map(|x| x as i64).unwrap_or(-1),"nagle":cb.nagle,"ts":cb.ts,"isn":wb,"ka":cb.keep_alive.map(|x| x as i64).unwrap_or(-1),"tmo":cb.timeout.map(|x| x as i64).unwrap_or(-1),"spare":cb.spare}],
+            "v6":ca.v6,"cfg":[{"rx":ca.rx,"tx":ca.tx,"mtu":ca.mtu,"cc":ca.cc,"ad":ca.ack_delay.map(|x| x as i64).unwrap_or(-1),"nagle":ca.nagle,"ts":ca.ts,"isn":wa,"ka":ca.keep_alive.map(|x| x as i64).unwrap_or(-1),"tmo":ca.timeout.map(|x| x as i64).unwrap_or(-1),"spare":ca.spare,"burst":ca.burst.map(|x| x as i64).unwrap_or(-1)},
+                   {"rx":cb.rx,"tx":cb.tx,"mtu":cb.mtu,"cc":cb.cc,"ad":cb.ack_delay.map(|x| x as i64).unwrap_or(-1),"nagle":cb.nagle,"ts":cb.ts,"isn":wb,"ka":cb.keep_alive.map(|x| x as i64).unwrap_or(-1),"tmo":cb.timeout.map(|x| x as i64).unwrap_or(-1),"spare":cb.spare,"burst":cb.burst.map(|x| x as i64).unwrap_or(-1)}],
             "link":{"drop":drop_pct,"dup":dup_pct,"flip":flip_pct,"delay":base_delay,"jitter":jitter,"adv_until":adv_until},"total":total}));
         // open: B listens, A connects
         let mut now: i64 = 0;
@@ -968,7 +973,7 @@ impl PeerW {
 }
 
 fn peer_cfg(args: &Args, seed: u64) -> EpCfg {
-    EpCfg { rx: args.usize("rx", 2), tx: args.usize("tx", 4), mtu: args.usize("mtu", 1500), cc: args.u64("cc", 0) as u8, ack_delay: None, nagle: args.flag("nagle"), ts: false, keep_alive: None, timeout: None, seed, v6: args.flag("v6"), spare: args.u64("spare", 0) as u8 }
+    EpCfg { rx: args.usize("rx", 2), tx: args.usize("tx", 4), mtu: args.usize("mtu", 1500), cc: args.u64("cc", 0) as u8, ack_delay: None, nagle: args.flag("nagle"), ts: false, keep_alive: None, timeout: None, seed, v6: args.flag("v6"), spare: args.u64("spare", 0) as u8, burst: None }
 }
 
 /// Replays TLC schedules (steps exported from MCTcpPeer) on a real listening socket.
@@ -1069,7 +1074,7 @@ pub fn peer_random(args: &Args) {
         let rx = *rng.pick(&[4usize, 16, 64, 256, 1000, 4096, 70000, 131072]);
         let tx = *rng.pick(&[8usize, 64, 512, 4096, 70000]);
         let mtu = *rng.pick(&[576usize, 1500, 296, 9000]);
-        let cfg = EpCfg { rx, tx, mtu, cc: rng.below(3) as u8, ack_delay: if rng.chance(40) { Some(10) } else { None }, nagle: rng.chance(50), ts: rng.chance(30), keep_alive: None, timeout: None, seed, v6: rng.chance(40), spare: *rng.pick(&[0u8, 0, 1, 2, 3]) };
+        let cfg = EpCfg { rx, tx, mtu, cc: rng.below(3) as u8, ack_delay: if rng.chance(40) { Some(10) } else { None }, nagle: rng.chance(50), ts: rng.chance(30), keep_alive: None, timeout: None, seed, v6: rng.chance(40), spare: *rng.pick(&[0u8, 0, 1, 2, 3]), burst: None };
         let peer_iss = match rng.below(4) {
             0 => 0xffff_ff00u32.wrapping_add(rng.below(200) as u32),
             1 => 0x7fff_ff00u32.wrapping_add(rng.below(200) as u32),
@@ -1083,6 +1088,8 @@ pub fn peer_random(args: &Args) {
         let peer_total = if rng.chance(15) { (rx as i64 + rng.range(0, 2) as i64 - 1).max(0) } else { rng.range(0, (rx as u64 * 3).min(300_000)) as i64 };
         let peer_mss_opt: Option<u16> = *rng.pick(&[None, Some(0u16), Some(1), Some(47), Some(48), Some(536), Some(1460), Some(9000)]);
         let peer_ws: Option<u8> = *rng.pick(&[None, Some(0u8), Some(2), Some(7), Some(14)]);
+        // (no burst limit on the device here: the interface then accepts more than the window it lets out, and the rules that
+        // judge a hostile peer's segments against the advertised window would have to be weakened; the pair world has it)
         t.ev(json!({"ev":"reset","run":run,"world":"tcp_peer","src":"random","seed":seed0,"cfg":[{"rx":65535,"tx":65535,"mtu":mtu,"cc":0,"ad":-1,"nagle":false,"ts":false,"isn":peer_iss as i64,"scripted":true},
             {"rx":rx,"tx":tx,"mtu":mtu,"cc":cfg.cc,"ad":cfg.ack_delay.map(|x| x as i64).unwrap_or(-1),"nagle":cfg.nagle,"ts":false,"isn":want}], "peer_fin": peer_total, "listener": listener}));
         // --- handshake (correct, so that the interesting part starts from ESTABLISHED most of the time)
